@@ -19,3 +19,8 @@ func VerifConfigure(s Stub, ctx context.Context, req *api.ConfigureRequest) (*ap
 
 // VerifEvents returns the mask the stub derived from the plugin's handlers.
 func VerifEvents(s Stub) api.EventMask { return s.(*stub).events }
+
+// VerifStaleConnClosed delivers the connection-closed notification of an
+// earlier session (one whose done channel is not the current session's), as
+// that session's ttrpc client does asynchronously, possibly late.
+func VerifStaleConnClosed(s Stub) { s.(*stub).connClosed(make(chan struct{})) }
